@@ -2,6 +2,7 @@ package gen
 
 import (
 	"bytes"
+	"os"
 	"strings"
 
 	"pgregory.net/rapid"
@@ -277,7 +278,7 @@ func Nest(t *rapid.T, p *Profile, maxBytes int, label string) []byte {
 		if m*len(cl) > maxBytes {
 			m = maxBytes / len(cl)
 		}
-		if cl == "\n" && m > 200 {
+		if cl == "\n" && m > 200 && os.Getenv("VERIF_NEST_BLANK_CAP") != "" {
 			// k open containers followed by m blank lines cost goldmark k*m bookkeeping entries (measured: 2500 x 5000
 			// needs 1.8 GB for a 10 KB document - noted in DESIGN as the nearest thing to a resource exhaustion);
 			// sixteen shards doing that at once exhaust the machine, which would make the run inconclusive
